@@ -65,6 +65,7 @@
   ServerSSM echoes a received abort).
 -/
 import BacVerif.Lemmas.TsmCapStep
+import BacVerif.Lemmas.TsmCache
 import BacVerif.Props.C11
 namespace BacVerif.C12
 open BacVerif.Tsm
@@ -345,6 +346,19 @@ theorem server_cannot_send_aborts {now : Nat} {npdu : Option Nat} {k : Key} {b :
       (serverConfirmation cfg now npdu k b a).2 = [.send k.peer (mkAbort true k.id reason)] :=
   serverConfirmation_cannot_send (cfg := cfg) (now := now) (npdu := npdu) (k := k) (b := b) h3 hnofit hbad
 
+/-! ## what the cache returns after an I-Am -/
+
+/-- **the latest I-Am wins** (`DeviceInfoCache`, model `Tsm.Cache`): after any
+    history of I-Ams, acquires and releases, an I-Am of instance `i` from address
+    `a` makes `get_device_info(a)` and `get_device_info(i)` return the record with
+    the announced maximum APDU and segmentation support — so the next request to
+    `a` is cut for what `a` announced last (`client_cut_max`). -/
+theorem latest_iam_wins (ops : List Cache.Op) (i : Nat) (a : Peer) (maxApdu : Nat) (seg : SegSup) :
+    ∃ r, (Cache.iam (Cache.runOps {} ops) i a maxApdu seg).lookup (.addr a) = some r ∧
+         (Cache.iam (Cache.runOps {} ops) i a maxApdu seg).lookup (.inst i) = some r ∧
+         r.id = i ∧ r.addr = a ∧ r.info.maxApdu = some maxApdu ∧ r.info.seg = seg :=
+  Cache.iam_after_any_history ops i a maxApdu seg
+
 /-! ## windows -/
 
 /-- **window_range (offered).**  The first segment of every segmented message
@@ -504,6 +518,14 @@ example : EventOk (.response 0 { ty := 3, invokeId := 7, service := 200, data :=
 theorem tables_agree :
     (List.range 16).map decodeMaxApdu = Gen.TsmDefaults.maxApduTable ∧
     (List.range 8).map decodeMaxSegs = Gen.TsmDefaults.maxSegsTable := by decide
+
+/-- the Segmentation enumeration of the tree carries the STANDARD's numbers
+    (BACnetSegmentation: segmented-both 0, segmented-transmit 1,
+    segmented-receive 2, no-segmentation 3) — an I-Am transports the number, the
+    state machines compare the names: a swap inside the enumeration makes the
+    client segment toward a peer that announced it cannot receive segments
+    (listed in the order no, transmit, receive, both of `SegSup`) -/
+theorem segmentation_values_standard : Gen.TsmDefaults.segmentationValues = [3, 1, 2, 0] := by decide
 
 /-- `Apdu.hdrLen` = what the live `APCI.encode` writes, for every type, both ways -/
 theorem hdr_lens_agree :
